@@ -3,6 +3,7 @@
 import glob, json, os, collections
 rows = []
 first_missed = []          # missed by the checks as they were when the change arrived, caught now
+superseded = []
 per_prop = collections.OrderedDict()
 for m in sorted(glob.glob('/verif/seeded/*/meta.json')):
     d = json.load(open(m))
@@ -26,6 +27,9 @@ for m in sorted(glob.glob('/verif/seeded/*/meta.json')):
     missed_first = bool(first is not None and not (first.get('detected_by') or []) and det)
     if missed_first:
         first_missed.append((name, ', '.join(det), sites[:140]))
+    if d.get('superseded'):
+        superseded.append((name, d['superseded']))
+        continue
     rows.append((name, own, str(d.get('what_changed', ''))[:110].replace('|', '/'),
                  str(d.get('needs_to_manifest', ''))[:110].replace('|', '/'), 'yes' if ok else 'NO',
                  ', '.join(det) if det else 'MISSED', sites[:160].replace('|', '/'),
@@ -50,4 +54,14 @@ with open('/verif/seeded/RESULTS.md', 'w') as f:
             '|---|---|---|---|---|---|---|---|\n')
     for r in rows:
         f.write('| ' + ' | '.join(r) + ' |\n')
+    missed = [r for r in rows if r[4] == 'yes' and r[5] == 'MISSED']
+    f.write('\n## Confirmed changes that no check reports\n\n')
+    if not missed:
+        f.write('none\n')
+    for r in missed:
+        f.write('* %s: %s (needs: %s)\n' % (r[0], r[2], r[3]))
+    if superseded:
+        f.write('\n## Changes superseded by a later repair of /repo (not counted above)\n\n')
+        for n_, t_ in superseded:
+            f.write('* %s: %s\n' % (n_, t_))
 print(open('/verif/seeded/RESULTS.md').read()[:1800])
